@@ -1,5 +1,7 @@
 import Feox.Conc.InFlight
 import Feox.Conc.Pin
+import Feox.Conc.Epoch
+import Feox.Gen.Epoch
 /-!
 # C20 — the safe API is memory safe  *(partial: the ownership protocols the `unsafe` code relies on)*
 
@@ -7,8 +9,12 @@ What a Lean model can carry here is the logic that decides *when memory may be f
 * `InFlightBuffers` (io_uring write buffers): a buffer the kernel may still read is never freed;
 * the extent pin word: pins and releases balance, so a guard never outlives its count
   (`Feox.Conc.Pin`, shared with C08).
-Machine-level memory safety of the compiled `unsafe` blocks (epoch reclamation in `TreeSlot`,
-`AlignedBuffer`) is outside the model; the check re-runs the schedule and fault engines under
+* the ordered-index slot (`TreeSlot`): with the reclamation mode the translator reads off
+  `TreeSlot::store` (`tools/gen_epoch.py` → `Feox.Gen.treeSlotStoreMode`), no reader that loads
+  under a pin ever dereferences a destroyed object (`Feox.Conc.Epoch`, crossbeam-epoch's
+  `defer_destroy` guarantee taken as the library's semantics).
+Machine-level memory safety of the compiled `unsafe` blocks (`AlignedBuffer`, the epoch
+library itself) is outside the model; the check re-runs the schedule and fault engines under
 AddressSanitizer as a search for a concrete failing input.
 -/
 namespace Feox.C20
@@ -64,6 +70,23 @@ count, the count never underflows) -/
 theorem extent_pin_guard_balanced {s : Feox.Conc.Pin.State} (es : List Feox.Conc.Pin.Ev)
     (h : Feox.Conc.Pin.run? {} es = some s) : s.readers = s.pinned + s.reading :=
   (Feox.Conc.Pin.run_inv es Feox.Conc.Pin.inv_init h).count
+
+/-- **No range scan, recovery walk or migration walk ever dereferences a destroyed index object**:
+under the reclamation mode of the current source, for any number of readers and any interleaving
+of pins, loads, dereferences, unpins / repins, writers' swaps and collector runs -/
+theorem tree_slot_no_use_after_free (n : Nat) (evs : List Feox.Conc.Epoch.Ev) :
+    (Feox.Conc.Epoch.run Feox.Gen.treeSlotStoreMode { n := n } evs).uaf = false := by
+  have hm : Feox.Gen.treeSlotStoreMode = .deferred := by decide
+  rw [hm]; exact Feox.Conc.Epoch.deferred_is_safe n evs
+
+/-- the reference `TreeSlot::load` returns cannot outlive the pin (lifetime signature, enforced by
+the borrow checker): the model's `unpin` may clear what the reader holds -/
+theorem tree_slot_load_tied_to_guard : Feox.Gen.treeSlotLoadTiedToGuard = true := by decide
+
+/-- destroying the replaced object at the swap (`unprotected()` guard, plain drop) is unsafe -/
+theorem immediate_destruction_is_unsafe :
+    (Feox.Conc.Epoch.run .immediate { n := 1 } [.pin 0, .load 0, .store, .deref 0]).uaf = true :=
+  Feox.Conc.Epoch.immediate_is_not
 
 /-! ### non-vacuity -/
 example : AllAllowed {} [.push, .push, .submitOk 0, .submitFail 1, .complete 0] := by
